@@ -30,6 +30,24 @@ Theorem merge_picture : forall t r0 c0 r1 c1 t', 0 <= r0 -> 0 <= c0 -> merge_cel
 Proof. exact merge_picture_lemma. Qed.
 Print Assumptions merge_picture.
 
+(* the table's list of merge ranges is exactly the set of merged rectangles: any list of pairwise disjoint,
+   non-empty rectangles (1xN, Nx1, NxM, touching, at table edges) merged one after the other into a fresh table *)
+Theorem merge_ranges_exact : forall nr nc Rs tf,
+  Forall nonempty Rs -> ForallOrdPairs disjoint Rs ->
+  Forall (fun R => let '(r0, c0, _, _) := R in r0 < nr /\ c0 < nc) Rs ->
+  merge_all (new_table nr nc) Rs = Ok tf ->
+  forall q, In q (merge_ranges tf) <-> In q Rs.
+Proof. exact merge_ranges_exact_lemma. Qed.
+Print Assumptions merge_ranges_exact.
+
+(* merge_ranges scans the cells' own attributes: it lists the anchors found at their current positions *)
+Theorem merge_ranges_are_anchor_cells : forall t q,
+  In q (merge_ranges t) <->
+  exists r c x h w, 0 <= r /\ 0 <= c /\ get_cell (data t) r c = Some x /\ cmerge x = MAnchor h w /\
+                    q = (r, c, r + h - 1, c + w - 1).
+Proof. exact merge_ranges_spec. Qed.
+Print Assumptions merge_ranges_are_anchor_cells.
+
 (* persistence: origin = col << 16 | row and size = ncols << 16 | nrows read back exactly while row and
    height fit 16 bits; the hypothesis is forced by the packing *)
 Theorem merge_reload : forall r c h w,
@@ -73,6 +91,12 @@ Proof.
   vm_compute. repeat split; try tauto; intuition discriminate.
 Qed.
 Print Assumptions merge_shift_refuted.
+
+Example three_rectangles :
+  match merge_all (new_table 6 6) [(0, 0, 0, 5); (1, 0, 5, 0); (2, 2, 3, 4)] with
+  | Ok tf => merge_ranges tf = [(0, 0, 0, 5); (1, 0, 5, 0); (2, 2, 3, 4)] /\ merge_ranges (reopen tf) = merge_ranges tf
+  | Err _ => False end.
+Proof. vm_compute. split; reflexivity. Qed.
 
 (* the picture on concrete tables (tests of the statement, not the theorem): anchor, placeholders, outside untouched,
    merge_ranges exact, identical after save + reopen *)
